@@ -166,8 +166,57 @@ let relevant_atoms st (w : window) (r : rule) (cap : int) : (char list * gval li
 
 let of_atoms = Semlib.of_fpint
 
+(* ------------------------------------------------------------------------------------------
+   The oracle of a run.  sem_tau_star uses anthem's OWN reading of / and \ (Model/EvalAsp.v =
+   Sem/AspRef.v: positive divisors only, floor).  sem_tau_star_ag / sem_tau_star_clingo evaluate the
+   same implementation output against the PUBLISHED readings (Model/EvalAspGringo.v: Abstract Gringo
+   = floor for every divisor <> 0; clingo = truncation) - finding F24.  A disagreement on a rule
+   that is IN the class of F24 (its evaluation over the window, in the published reading, applies /
+   or \ to a negative divisor - clingo: or to a negative dividend; extracted test
+   EvalAspGringo.rule_in_class) is the recorded deviation: the plain ops count it
+   (`in-class-deviations`), the `_strict` ops report it as `(cex ... (class F24))` (that is how
+   bin/check replays the known finding).  A disagreement OUTSIDE the class is a counterexample for
+   both kinds of op; by Proofs/DivisionDeviation.ref_rule_eval_ag_outside /
+   ref_rule_eval_clingo_outside the published oracle returns anthem's verdict there, so such a
+   counterexample is one of sem_tau_star too.
+   `wide`: the window must contain the numerals of the rule (7/(0-2) needs 7 and -4), so windows
+   [-m,m] with m = largest numeral (<= 10) are tried first. *)
+type oracle = {
+  oname : string;
+  eval_ref : window -> fpint -> fpint -> rule -> bool;
+  in_class : window -> rule -> bool;
+  strict : bool;
+  wide : bool;
+}
+let own_oracle = {
+  oname = "anthem";
+  eval_ref = (fun w h t r -> M.EvalAsp.ref_rule_eval w h t r);
+  in_class = (fun _ _ -> false);
+  strict = true;
+  wide = false;
+}
+let published_oracle name mode badb strict = {
+  oname = name;
+  eval_ref = (fun w h t r -> M.EvalAspGringo.ref_rule_eval_m mode w h t r);
+  in_class = (fun w r -> M.EvalAspGringo.rule_in_class mode badb w r);
+  strict;
+  wide = true;
+}
+
+let rec term_maxnum acc = function
+  | TPre (PNum z) -> max acc (Stdlib.abs (try Z.to_int (Conv.z_of_coqz z) with _ -> max_int))
+  | TPre _ | TVar _ -> acc
+  | TUn t -> term_maxnum acc t
+  | TBin (_, l, r) -> term_maxnum (term_maxnum acc l) r
+let rule_maxnum (r : rule) =
+  let atom acc (a : atom) = List.fold_left term_maxnum acc a.aterms in
+  let acc = match r.rhead with HBasic a | HChoice a -> atom 0 a | HFalsity -> 0 in
+  List.fold_left (fun acc b -> match b with
+      | BLit l -> atom acc l.latom
+      | BCmp c -> term_maxnum (term_maxnum acc c.clhs) c.crhs) acc r.rbody
+
 (* compare one formula (or a conjunction) with one rule (or several) *)
-let check_group st (rules : rule list) (fs : formula list) (count : int ref) (skipped : int ref) (artefacts : int ref) : Sexp.t option =
+let check_group ?(oracle = own_oracle) ?(inclass = ref 0) ?(deviations = ref 0) st (rules : rule list) (fs : formula list) (count : int ref) (skipped : int ref) (artefacts : int ref) : Sexp.t option =
   let nodes = List.map annotate fs in
   let nv = List.fold_left (fun acc (r : rule) ->
       max acc (List.length (rule_vars r) + Conv.int_of_nat (head_arity r.rhead))) 0 rules in
@@ -192,6 +241,10 @@ let check_group st (rules : rule list) (fs : formula list) (count : int ref) (sk
     a + (min 1_000_000_000 (b + refc)) * ipow 3 k in
   (* pick (m, number of atoms) within the budget *)
   let options = [ (3, 5); (3, 4); (2, 5); (2, 4); (3, 3); (2, 3); (1, 4); (1, 3); (2, 2); (1, 2); (1, 1) ] in
+  let maxnum = List.fold_left (fun acc r -> max acc (rule_maxnum r)) 0 rules in
+  let options =
+    if oracle.wide && maxnum > 3 && maxnum <= 10 then [ (maxnum, 3); (maxnum, 2); (maxnum, 1) ] @ options
+    else options in
   let pick = List.find_opt (fun (m, k) -> total m k <= 1_500_000) options in
   (* upper bound of what the extracted (non-memoising) evaluator would do on formula f *)
   let rec slow_cost m (f : formula) : int =
@@ -210,7 +263,13 @@ let check_group st (rules : rule list) (fs : formula list) (count : int ref) (sk
     let ctx = new_ctx w in
     let result = ref None in
     let eval_impl ctx h t = List.for_all (fun n -> hev ctx h t [] n) nodes in
-    let eval_ref w h t = List.for_all (fun r -> M.EvalAsp.ref_rule_eval w h t r) rules in
+    let eval_ref w h t = List.for_all (fun r -> oracle.eval_ref w h t r) rules in
+    let in_class w = List.exists (fun r -> oracle.in_class w r) rules in
+    if in_class w then incr inclass;
+    let deviated = ref false in
+    (* one point of the doubled window: all predicate-free nodes once, the others once *)
+    let point_cost m = let (a, b) = List.fold_left (fun (a, b) n -> let (c, d) = costs m n in (min 1_000_000_000 (a + c), min 1_000_000_000 (b + d))) (0, 0) nodes in
+      min 1_000_000_000 (a + b + ipow (g m) nv) in
     let cross = ref 0 in
     List.iter (fun t ->
         if !result = None then begin
@@ -229,24 +288,34 @@ let check_group st (rules : rule list) (fs : formula list) (count : int ref) (sk
                     result := Some (L [ A "driver-error"; S "memoising evaluator disagrees with Model/Eval.heval" ])
                 end;
                 if !result = None && lhs <> rhs then begin
-                  (* re-check with the window doubled *)
-                  let w2 = mk_window (2 * m) syms in
-                  let ctx2 = new_ctx w2 in
-                  let lhs2 = eval_impl ctx2 h t in
-                  let rhs2 = eval_ref w2 h t in
-                  if lhs2 <> rhs2 then
-                    result := Some (L [ A "cex";
+                  (* re-check with the window doubled (published oracles, whose windows can be wide: only when one
+                     point of the doubled window is affordable) *)
+                  let affordable = (not oracle.wide) || point_cost (2 * m) <= (if oracle.strict then 40_000_000 else 4_000_000) in
+                  let w2 = if affordable then mk_window (2 * m) syms else w in
+                  let (lhs2, rhs2) =
+                    if affordable then begin
+                      let ctx2 = new_ctx w2 in
+                      (eval_impl ctx2 h t, eval_ref w2 h t)
+                    end else (lhs, rhs) in
+                  if lhs2 <> rhs2 then begin
+                    let cls = in_class w || in_class w2 in
+                    if cls && not oracle.strict then deviated := true
+                    else
+                    result := Some (L ([ A "cex";
                                         L [ A "rules"; of_program rules ];
                                         L [ A "formulas"; of_theory fs ];
                                         L [ A "H"; of_atoms h ]; L [ A "T"; of_atoms t ];
                                         L [ A "window"; Semlib.of_window w ];
                                         L [ A "ht-satisfies-implementation-formulas"; of_boolv lhs ];
-                                        L [ A "ht-satisfies-rules-reference-semantics"; of_boolv rhs ];
-                                        L [ A "doubled-window"; of_boolv lhs2; of_boolv rhs2 ] ])
+                                        L [ A (if oracle.wide then "ht-satisfies-rules-reference-semantics-" ^ oracle.oname else "ht-satisfies-rules-reference-semantics"); of_boolv rhs ];
+                                        L ([ A "doubled-window" ] @ (if oracle.wide then [ A (if affordable then "evaluated" else "too-large") ] else []) @ [ of_boolv lhs2; of_boolv rhs2 ]) ]
+                                       @ (if oracle.wide then [ L [ A "class"; A (if cls then "F24" else "none") ] ] else [])))
+                  end
                   else incr artefacts
                 end
               end) (Semlib.subsets t)
         end) (Semlib.subsets atoms);
+    if !deviated then incr deviations;
     !result
 
 let sem_tau_star (e : Sexp.t) : Sexp.t =
@@ -267,7 +336,35 @@ let sem_tau_star (e : Sexp.t) : Sexp.t =
                    A "window-artefacts"; A (string_of_int !artefacts) ])
   | _ -> bad "sem_tau_star: %s" (to_string e)
 
+(* the implementation's tau* output against a PUBLISHED reading of / and \ (finding F24) *)
+let sem_tau_star_published (oracle : oracle) (e : Sexp.t) : Sexp.t =
+  match e with
+  | L [ p; g ] ->
+    let p = program p and g = theory g in
+    let st = Semlib.rng_of (Semlib.hash_sexp e) in
+    let count = ref 0 and skipped = ref 0 and artefacts = ref 0 and inclass = ref 0 and deviations = ref 0 in
+    counter := 0;
+    let groups =
+      if List.length p = List.length g then List.map2 (fun r f -> ([ r ], [ f ])) p g
+      else [ (p, g) ] in
+    let res = List.fold_left (fun acc (rs, fs) ->
+        match acc with Some _ -> acc | None -> check_group ~oracle ~inclass ~deviations st rs fs count skipped artefacts) None groups in
+    (match res with
+     | Some r -> r
+     | None -> L [ A "ok"; A (string_of_int !count); A "skipped-rules"; A (string_of_int !skipped);
+                   A "window-artefacts"; A (string_of_int !artefacts);
+                   A "in-class-F24"; A (string_of_int !inclass);
+                   A "in-class-deviations"; A (string_of_int !deviations) ])
+  | _ -> bad "sem_tau_star_%s: %s" oracle.oname (to_string e)
+
+let ag strict = published_oracle "abstract-gringo" M.EvalAspGringo.DGringo M.EvalAspGringo.neg_divisor_b strict
+let clingo strict = published_oracle "clingo" M.EvalAspGringo.DClingo M.EvalAspGringo.neg_operand_b strict
+
 let () =
+  Ops.register "sem_tau_star_ag" (sem_tau_star_published (ag false));
+  Ops.register "sem_tau_star_ag_strict" (sem_tau_star_published (ag true));
+  Ops.register "sem_tau_star_clingo" (sem_tau_star_published (clingo false));
+  Ops.register "sem_tau_star_clingo_strict" (sem_tau_star_published (clingo true));
   Ops.register "tau_star" tau_star;
   Ops.register "tau_star_small" tau_star;
   Ops.register "tau_star_val" tau_star;
